@@ -395,6 +395,76 @@ func init() {
 				c.Count("depth-cases")
 				c.Nontrivial("d", fmt.Sprint(idx), fmt.Sprint(variant))
 			}},
+			{Name: "null-then-descend", Exhaustive: true, Count: func(core.Tier) int { return 2 * 2 * 5 * 8 * 3 * 2 }, Run: func(c *core.Ctx, idx int) {
+				// a null stored by the patch (add / replace), relocated (copy, move, twice, or not at all), and then an
+				// operation whose path or from goes beneath it: a stored null, a copied null and a decoded null are
+				// three different node states, and each must simply be "not a container"
+				legacy := idx%2 == 1
+				idx /= 2
+				store := []string{"add", "replace"}[idx%2]
+				idx /= 2
+				reloc := idx % 5
+				idx /= 5
+				fin := idx % 8
+				idx /= 8
+				child := []string{"/c", "/0", "/-"}[idx%3]
+				idx /= 3
+				doc := []string{`{"a":1,"q":{"r":[null]}}`, `[1,{"r":null}]`}[idx%2]
+				p, q, q2 := "/a", "/b", "/q/n"
+				if idx%2 == 1 {
+					p, q, q2 = "/0", "/-", "/1/n"
+				}
+				ops := []string{OpText(store, p, "", "null", true)}
+				at := p
+				switch reloc {
+				case 1:
+					ops = append(ops, OpText("copy", q, p, "", false))
+					at = q
+				case 2:
+					ops = append(ops, OpText("move", q, p, "", false))
+					at = q
+				case 3:
+					ops = append(ops, OpText("copy", q, p, "", false), OpText("copy", q2, q, "", false))
+					at = q2
+				case 4:
+					ops = append(ops, OpText("copy", q2, p, "", false), OpText("move", q, q2, "", false))
+					at = q
+				}
+				if at == "/-" {
+					at = "/2"
+					if reloc == 2 || reloc == 4 {
+						at = "/1"
+					}
+				}
+				switch fin {
+				case 0:
+					ops = append(ops, OpText("add", at+child, "", "1", true))
+				case 1:
+					ops = append(ops, OpText("replace", at+child, "", "1", true))
+				case 2:
+					ops = append(ops, OpText("remove", at+child, "", "", false))
+				case 3:
+					ops = append(ops, OpText("test", at+child, "", "null", true))
+				case 4:
+					ops = append(ops, OpText("copy", at+child, "/a", "", false))
+				case 5:
+					ops = append(ops, OpText("move", "/zz", at+child, "", false))
+				case 6:
+					ops = append(ops, OpText("copy", "/zz", at+child+"/deeper", "", false))
+				case 7:
+					ops = append(ops, OpText("add", at+child+"/x", "", "{}", true), OpText("test", at, "", "null", true))
+				}
+				for _, oi := range []int{1, 3, 5, 9} {
+					o := optFromIndex(oi)
+					if legacy {
+						applyAllLegacy(c, doc, PatchText(ops), o)
+					} else {
+						applyAllV5(c, doc, PatchText(ops), o)
+					}
+				}
+				c.Count("null-then-descend:cases")
+				c.Nontrivial("n", doc, PatchText(ops), fmt.Sprint(legacy))
+			}},
 			{Name: "depth-growth", Exhaustive: true, Guard: 400 * time.Second, Count: func(t core.Tier) int {
 				if t == core.Thorough {
 					return len(growthDV) * 2 * growthScripts * 2
